@@ -392,7 +392,7 @@ def make_batches(units, jobs):
     return batches
 
 
-MIRSYM_PROPS = {"C01", "C11"}
+MIRSYM_PROPS = {"C01", "C11", "C04", "C19"}
 MIRSYM_PRIMS = {"-true", "-false", "-print", "-print0", "-prune", "-quit", "-empty", "-readable"}
 
 
@@ -541,74 +541,48 @@ def run_check(prop, tier, only=None, jobs=None, seed=0):
         else:
             inconclusive.append((h, detail))
 
-    # --- second engine: MIR-level symbolic execution (parser, builders, combinators end to end)
+    # --- second engine: MIR-level symbolic execution
     mirsym = None
     if prop in MIRSYM_PROPS and (not only or "mirsym" in only):
         mirsym = run_mirsym(prop, tier, logdir)
         if mirsym.get("error"):
             inconclusive.append(({"name": "mirsym", "full": "mirsym"}, mirsym["error"]))
         else:
-            sent = sum(r["sentences_checked"] for r in mirsym["runs"])
-            paths = sum(r["paths"] for r in mirsym["runs"])
-            evaluations += sent
-            distinct += paths
-            queries.append({"harness": "mirsym::c01_parser (build_top_level_matcher + <Box<dyn Matcher>>::matches on symbolic token sequences)",
-                            "role": "main", "status": "verified" if not mirsym["violations"] and not mirsym["unsupported"] else "failed",
-                            "engine": mirsym["engine"], "bounds": "token sequences of length %s over the %d-word vocabulary %s; two symbolic leaf tests; one abstract file (a directory)" % (
-                                [r["tokens"] for r in mirsym["runs"]], len(mirsym["vocabulary"]), mirsym["vocabulary"]),
-                            "paths": paths, "inputs_covered": sent, "solver_calls": sum(r["solver_calls"] for r in mirsym["runs"]),
-                            "decision_s": mirsym["wall_s"], "mir_dump_s": mirsym["mir_dump_s"], "functions_executed": mirsym["functions_executed"],
+            evaluations += mirsym["inputs_covered"]
+            distinct += mirsym["paths"]
+            queries.append({"harness": "mirsym: " + mirsym["target"], "role": "main",
+                            "status": "verified" if not mirsym["violations"] and not mirsym["unsupported"] else "failed",
+                            "engine": mirsym["engine"], "bounds": mirsym["bounds"], "paths": mirsym["paths"], "inputs_or_obligations_discharged": mirsym["inputs_covered"],
+                            "solver_calls": mirsym["solver_calls"], "decision_s": mirsym["wall_s"], "mir_dump_s": mirsym["mir_dump_s"],
+                            "functions_executed": mirsym["functions_executed"], "runs": [{k: r[k] for k in ("bound", "paths", "inputs_covered", "solver_calls", "wall_s")} for r in mirsym["runs"]],
                             "detail": "", "log": mirsym.get("log")})
             fn_all.update("mir:" + f for f in mirsym["functions_executed"])
             for r in mirsym["runs"]:
-                samples.extend({"harness": "mirsym", "kind": "explored path (tokens pinned by the path condition) and its outcome", **x} for x in r.get("samples", [])[:2])
+                samples.extend({"harness": "mirsym", "kind": "explored path and its outcome (values pinned by the path condition / a model of it)", **x} for x in r.get("samples", [])[:1])
             if mirsym["unsupported"]:
                 inconclusive.append(({"name": "mirsym", "full": "mirsym"}, "paths left the modelled fragment: %s" % mirsym["unsupported"]))
-            assumptions.add("mirsym: std/alloc calls are answered by the models in mirsym/models.py; Printer/Prune/-empty/-readable leaves are natives (events / symbolic booleans)")
+            assumptions.add("mirsym: std/alloc calls are answered by the models in mirsym/models.py; process spawning / printing / leaf tests are natives (recorders, events, symbolic values)")
 
     # --- witnesses for violations: concrete playback, then native replay
     vio_out = []
     if mirsym and mirsym.get("violations"):
-        seen_shapes = {}
+        groups = {}
         for v in mirsym["violations"]:
-            shape = " ".join("P" if t in MIRSYM_PRIMS else t for t in v["tokens"]) + " | " + v["what"].split("(")[0].strip()
-            seen_shapes.setdefault(shape, v)
-        for shape, v in list(seen_shapes.items())[:8]:
-            witness = {"property": prop, "harness": "mirsym", "harness_name": "mirsym", "tier": tier, "failing": v["what"], "tokens": v["tokens"],
-                       "leaves": v["leaves"], "shape": shape, "same_shape_inputs": sum(1 for x in mirsym["violations"] if " ".join("P" if t in MIRSYM_PRIMS else t for t in x["tokens"]) + " | " + x["what"].split("(")[0].strip() == shape)}
-            h = {"name": "mirsym", "full": "mirsym", "meta": {"replay": ["parser_tokens"]}}
+            groups.setdefault(v["key"], []).append(v)
+        for key, vs in list(groups.items())[:8]:
+            v = vs[0]
+            witness = dict(v, property=prop, harness="mirsym", harness_name="mirsym", tier=tier, failing=v["summary"], same_kind_inputs=len(vs))
+            h = {"name": "mirsym", "full": "mirsym", "meta": {"replay": [v.get("replayer", "")]}}
             reproduced, rdetail = native_replay(h, witness)
             witness["native_replay"] = {"reproduced": reproduced, "detail": rdetail}
-            wid = hashlib.sha1(json.dumps(witness["tokens"]).encode()).hexdigest()[:10]
+            wid = hashlib.sha1(json.dumps(v, sort_keys=True, default=str).encode()).hexdigest()[:10]
             wpath = os.path.join(REPLAY_DIR, "%s-mirsym-%s.json" % (prop, wid))
-            json.dump(witness, open(wpath, "w"), indent=1)
+            json.dump(witness, open(wpath, "w"), indent=1, default=str)
             if reproduced is False:
-                inconclusive.append((h, "mirsym witness %r did not reproduce natively (%s)" % (v["tokens"], rdetail)))
+                inconclusive.append((h, "mirsym witness did not reproduce natively: %s (%s)" % (v["summary"][:200], rdetail)))
             else:
-                vio_out.append((h, "%s: %s" % (" ".join(v["tokens"]), v["what"]), wpath, reproduced, rdetail))
-                samples.append({"harness": "mirsym", "kind": "violation witness", "tokens": v["tokens"], "failing": v["what"], "replay": wpath, "reproduced_natively": reproduced})
-    for h, r, detail in violations:
-        text, wall, rc, note, logpath = run_batch([h], tier, logdir, playback=True)
-        _, res = parse_log(text)
-        pr = res.get(h["full"])
-        vals, failing = ([], None)
-        if pr and pr.get("playback"):
-            vals, failing = decode_playback(pr["playback"])
-        witness = {"property": prop, "harness": h["full"], "harness_name": h["name"], "tier": tier, "failing": detail,
-                   "failing_check": failing, "concrete_vals": vals, "witness_schema": " ".join(h["meta"].get("witness", []) or
-                                                                                               (h.get("parent_meta") or {}).get("witness", [])),
-                   "playback_test": pr.get("playback") if pr else None, "log": logpath}
-        reproduced, rdetail = native_replay(h, witness)
-        witness["native_replay"] = {"reproduced": reproduced, "detail": rdetail}
-        wid = hashlib.sha1(json.dumps([h["full"], detail, vals], sort_keys=True).encode()).hexdigest()[:10]
-        wpath = os.path.join(REPLAY_DIR, "%s-%s-%s.json" % (prop, h["name"], wid))
-        json.dump(witness, open(wpath, "w"), indent=1)
-        if reproduced is False:
-            inconclusive.append((h, "solver witness did not reproduce natively (%s); encoding or stub suspect. witness=%s" % (rdetail, wpath)))
-        else:
-            vio_out.append((h, detail, wpath, reproduced, rdetail))
-            samples.append({"harness": h["full"], "kind": "violation witness", "failing": detail, "replay": wpath,
-                            "reproduced_natively": reproduced})
+                vio_out.append((h, v["summary"][:400], wpath, reproduced, rdetail))
+                samples.append({"harness": "mirsym", "kind": "violation witness", "failing": v["summary"][:400], "replay": wpath, "reproduced_natively": reproduced})
 
     wall = time.time() - t_start
     ev = {
